@@ -116,8 +116,7 @@ class Progress:
             # a token-kind predicate `isPrimitiveTypeToken(peek().type)`: true ⇒ not at end, when the predicate — evaluated from
             # its own syntax tree — is false for the end-of-input kind
             a0 = SX.strip(SX.real_args(c)[0])
-            if SX.is_node(a0) and a0.get('k') == 'member' and a0.get('name') == 'type' and self._is_current_token(a0.get('base')) \
-                    and (node is None or True):
+            if self._is_current_kind(a0):
                 ts = [t for t in self.p.resolve(c) if t.body]
                 if len(ts) == 1 and len(ts[0].params) == 1 and (ts[0].ret or '') == 'bool':
                     key = ('eofpred', ts[0].key)
@@ -150,9 +149,8 @@ class Progress:
                 op = {'==': '!=', '!=': '==', '<': '>=', '>=': '<', '>': '<=', '<=': '>'}[op]
             for a, b in ((l, r), (r, l)):
                 # <token>.type ==/!= TokenType::K
-                if SX.is_node(b) and b['k'] == 'ref' and b.get('kind') == 'enum' and self.eof and SX.is_node(a) and a['k'] == 'member' and a['name'] == 'type':
-                    root, _ = SX.member_chain(a)
-                    if self._is_current_token(a['base']):
+                if SX.is_node(b) and b['k'] == 'ref' and b.get('kind') == 'enum' and self.eof and SX.is_node(a):
+                    if self._is_current_kind(a):
                         iseof = b['name'].endswith('::' + self.eof)
                         if (op == '==' and not iseof) or (op == '!=' and iseof):
                             return True
@@ -166,6 +164,25 @@ class Progress:
                 return True
             if op == '>' and rt == self.cursor and lt in self.size_texts:
                 return True
+        return False
+
+    def _is_current_kind(self, e):
+        """e is the kind of the current token: `peek().type` (or `<local bound to peek()>.type`), or a local initialised with that and
+        no cursor movement since (`const TokenType head = peek().type;`)"""
+        e = SX.strip(e)
+        while SX.is_node(e) and e.get('k') == 'cast':
+            e = SX.strip(e['e'])
+        if SX.is_node(e) and e.get('k') == 'member' and e.get('name') == 'type' and self._is_current_token(e.get('base')):
+            return True
+        node = getattr(self, '_node', None)
+        if SX.is_node(e) and e.get('k') == 'ref' and e.get('kind') == 'var' and node is not None:
+            d = self._decl_of(e)
+            if d is not None and SX.is_node(d.e.get('init')):
+                i = SX.strip(d.e['init'])
+                while SX.is_node(i) and i.get('k') == 'cast':
+                    i = SX.strip(i['e'])
+                if SX.is_node(i) and i.get('k') == 'member' and i.get('name') == 'type' and self._is_peek(SX.strip(i.get('base'))) and self._unmoved_between(d, node):
+                    return True
         return False
 
     def _is_peek(self, e):
@@ -303,7 +320,7 @@ class Progress:
             if sw and SX.is_node(sw[0].e) and SX.is_node(sw[0].e.get('c')):
                 c = SX.strip(sw[0].e['c'])
                 self._node = sw[0]
-                if self.eof and SX.is_node(c) and c.get('k') == 'member' and c.get('name') == 'type' and self._is_current_token(c.get('base')) \
+                if self.eof and SX.is_node(c) and self._is_current_kind(c) \
                         and not str(n.label).endswith(self.eof) and SX.is_node(n.e.get('v')) and SX.strip(n.e['v']).get('kind') == 'enum':
                     return (C, 1, X, N2)
                 # `switch (peek()) { case 'f': …` — the scanner's peek() yields '\0' at end of input, so a non-NUL label is
